@@ -109,7 +109,7 @@ var clauseKeywords = map[string]bool{
 	"nopanic": true, "arith": true, "inv": true, "decreases": true, "assert": true, "callee": true,
 	"stable": true, "escapable": true, "thread-entry": true, "split": true, "inline": true, "pure": true,
 	"monitor": true, "invariant": true, "rely": true, "self": true, "maypanic": true, "havoc": true,
-	"assume": true, "entry-assume": true, "ownschan": true, "strong-invariant": true, "ghostfield": true, "interferes": true, "ghost": true, "unroll": true, "trusted": true, "syncmap": true, "object-invariant": true, "rest-invariant": true, "wgadds": true,
+	"assume": true, "entry-assume": true, "ownschan": true, "strong-invariant": true, "ghostfield": true, "interferes": true, "ghost": true, "unroll": true, "trusted": true, "syncmap": true, "object-invariant": true, "rest-invariant": true, "wgadds": true, "gives": true,
 }
 var blockKeywords = map[string]bool{"type": true, "func": true, "spec": true, "lemma": true, "assume-contract": true, "global": true, "chan": true}
 
@@ -418,7 +418,7 @@ func mkClause(kind, rest, file string, line int) (*Clause, error) {
 		}
 		c.Loop, _ = strconv.Atoi(m[1])
 		exprText = m[2]
-	case "assert", "stable", "escapable":
+	case "assert", "stable", "escapable", "gives":
 		// assert @SITE: expr
 		re := regexp.MustCompile(`^@(\S+?)\s*:\s+(.*)$`)
 		m := re.FindStringSubmatch(rest)
